@@ -21,7 +21,7 @@ RULE = ('matrices N in 1..3000 (quick 1..400) x dtypes {u1,u2,u4,u8 big/little e
         'argument {None, position, name, list, single-element list, mixed}; non-trivial = N>=3 and a non-constant '
         'column; distinct = digest(data, statistic, channel argument)')
 ASSUMPTIONS = ['tolerance rtol 1e-6 (integer/float64 containers), 2e-5 (float32 containers: single-precision reductions are legitimate)',
-               'geometric statistics judged on strictly positive columns only']
+               'geometric statistics: value judged on strictly positive columns; a column with a negative value or any statistic (except the mode) of a column with a NaN must be NaN; columns with zeros not judged']
 MIN_CHECKS = {'quick': 15000, 'thorough': 300000}
 REQUIRED_COUNTERS = ['chk:stats', 'chk:container', 'chk:identity', 'chk:form']
 
@@ -58,6 +58,8 @@ def make_sample(F, rng, path, nmax):
             spec['events'] = [[abs(v) + 0.5 for v in row] for row in spec['events']]
         if rng.random() < 0.3:
             spec['events'] = [[float(int(v) % 7 + 1) for v in row] for row in spec['events']]   # ties
+        if N >= 3 and rng.random() < 0.1:
+            spec['events'][int(rng.integers(N))][int(rng.integers(D))] = float('nan')      # a NaN among the recorded values
         spec['byteord'] = bo
     return zoo.write_and_load(F, spec, path), kind, positive
 
@@ -180,10 +182,13 @@ def run(ctx):
                     ok = close(v['rcv'].value, np.asarray(v['iqr'].value) / np.asarray(v['median'].value), tol)
                 ctx.counters['chk:identity'] += 1
                 ctx.check(ok, 'identity:rcv', cid, container=cname, dtype=str(s.dtype))
-            if positive and all(not v[k].raised for k in ('gcv', 'gstd')):
+            if all(not v[k].raised for k in ('gcv', 'gstd')):
                 g = np.asarray(v['gstd'].value, dtype=float)
-                ok = close(v['gcv'].value, np.sqrt(np.exp(np.log(g) ** 2) - 1), 1e-4) or \
-                    bool(np.all(np.abs(np.asarray(v['gcv'].value) - np.sqrt(np.exp(np.log(g) ** 2) - 1)) < 1e-7))
+                with np.errstate(all='ignore'):
+                    want_gcv = np.sqrt(np.exp(np.log(g) ** 2) - 1)
+                    gv = np.asarray(v['gcv'].value, dtype=float)
+                    ok = close(gv, want_gcv, 1e-4) or \
+                        bool(np.all((np.abs(gv - want_gcv) < 1e-7) | (np.isnan(gv) & np.isnan(want_gcv))))
                 ctx.counters['chk:identity'] += 1
                 ctx.check(ok, 'identity:gcv', cid, container=cname, dtype=str(s.dtype), gstd=g, gcv=v['gcv'].value)
     # the repository's own tests as a workload under the same monitors (their assertions are not the oracle)
